@@ -16,7 +16,7 @@ RULE = ("Monitor in the peer: EVERY frame it receives is parsed by the independe
         "multi-write count = bytes/2 and byte count = len, CRC-16; MBAP protocol id 0, length = bytes that follow, "
         "transaction id != 0 and != the previous transmission's; AA55 header C07F, length byte = payload length, "
         "additive checksum).  Workload: (a) batches of 40 protocol-level commands over the argument grid (boundaries "
-        "0,1,0x7F,0x80,0xFF,0x7FFF,0x8000,0xFFFF,-1,-32768 + seeded values; comm addresses 0..255; even payload "
+        "0,1,0x7F,0x80,0xFF,0x7FFF,0x8000,0xFFFF,-1,-32768 + seeded values; comm addresses 0..255; AA55 commands also over a TCP connection (ES family behind port 502); even payload "
         "lengths 2..246; AA55 8-byte groups), some under loss so that retransmissions are seen; (b) histories: "
         ">65535 consecutive Modbus/TCP transmissions across two inverter objects incl. retransmissions (transaction "
         "id wrap); (c) every public setter of ET/DT/ES with valid arguments (frames must be canonical; the argument "
@@ -52,7 +52,7 @@ def make_case(tier, seed, index):
     if index < N_SETTERS[tier]:
         return {"kind": "setters", "family": ["ET", "DT", "ES", "ES2"][index % 4],
                 "transport": "udp" if index % 4 >= 2 else ["udp", "tcp"][(index // 4) % 2], "vseed": index}
-    fr = rnd.choice(["rtu", "tcp", "aa55"])
+    fr = rnd.choice(["rtu", "tcp", "aa55", "aa55tcp"])   # aa55tcp: AA55 commands over a TCP connection
     addr = rnd.choice([0, 1, 0x7F, 0x80, 0xF7, 0xFF, rnd.randrange(256)])
     cmds = []
     for _ in range(PER_BATCH):
@@ -136,7 +136,7 @@ def run_case(case):
 
 def run_grid(case):
     fr = case["framing"]
-    tr = "tcp" if fr == "tcp" else "udp"
+    tr = "tcp" if fr in ("tcp", "aa55tcp") else "udp"
     addr = case["comm_addr"]
     world = World(max_steps=200_000)
     dev = SimInverter(mode="file", seed=1)
